@@ -50,6 +50,14 @@ def make_b(rows, T, mode, seed):
             new.append(r[:3] + [None if x is None else round(x * level * rnd.uniform(0.97, 1.03), 4) for x in r[3:]])
             continue
         new.append(r[:3] + [None if x is None else round(x * rnd.uniform(0.3, 3.0), 4) for x in r[3:]])
+    if mode in ('rewrite', 'wild', 'mix') and new and rnd.random() < 0.4:
+        # the vendor's later rows have gaps: a few future cells are empty
+        for k in range(len(new)):
+            if rnd.random() < 0.25:
+                j = rnd.choice([3, 4, 5])
+                new[k] = new[k][:j] + [None] + new[k][j + 1:]
+                if j == 4:
+                    new[k][5] = None
     if mode in ('rewrite', 'wild') and new and rnd.random() < 0.3:
         # a bad print somewhere in the future: a close of zero
         k = rnd.randrange(len(new))
